@@ -82,6 +82,13 @@ def scan_classes():
             for sm in re.finditer(r'\b(struct|union)\s+(\w+)\s*\{', body):
                 e = cxx.match_bracket(body, sm.end() - 1, '{', '}')
                 ci.structs[sm.group(2)] = body[sm.start():e]
+            for sm in re.finditer(r'\bclass\s+(\w+)\s*\{', body):
+                e = cxx.match_bracket(body, sm.end() - 1, '{', '}')
+                inner = flatten(body[sm.end():e - 1])
+                decls = re.findall(r'\b(?:uint8_t|uint16_t|uint32_t|uint64_t)\s+\w+\s*:\s*\d+(?:\s*,\s*\w+\s*:\s*\d+)*\s*;', inner)
+                if decls:
+                    ci.structs[sm.group(1)] = 'struct %s { %s }' % (sm.group(1), ' '.join(decls))
+            ci.consts = dict(re.findall(r'\bstatic\s+const\s+\w+\s+(\w+)\s*=\s*(\d+)\s*;', flatten(body)))
             for em in re.finditer(r'\benum\s+(\w+)\s*\{', body):
                 e = cxx.match_bracket(body, em.end() - 1, '{', '}')
                 ci.enums[em.group(1)] = body[em.start():e]
@@ -296,6 +303,12 @@ def gen_class(classes, setters, k, waivers):
         if pod[mname][0] in structs:
             need_struct(pod[mname][0])
     from vf.unit import _lower_struct
+    consts = {}
+    for c in reversed(lin):
+        consts.update(getattr(classes[c], 'consts', {}))
+    used_consts = sorted(n for n in consts if any(re.search(r'\b%s\b' % n, t) for _, t in struct_needed))
+    if used_consts:
+        out.append('enum { %s };' % ', '.join('%s = %s' % (n, consts[n]) for n in used_consts))
     for sname, text in struct_needed:
         out.append(_lower_struct(text, sname, None))
     body_texts = {}
@@ -375,7 +388,60 @@ def gen_class(classes, setters, k, waivers):
         out.append('static void %s_set_%s(%s* this, %s %s) %s' % (k, s, k, ctype_of(rt), pname, b))
         funcs.append({'function': '%s::%s(%s)' % (k, s, rt[0]), 'file': where})
 
+    union_groups = []   # list of sets of sibling member names that overlay each other
+    for sname, text in struct_needed:
+        t = cxx.preprocess(text)
+        for um in re.finditer(r'\bunion\s*\w*\s*\{', t):
+            e = cxx.match_bracket(t, um.end() - 1, '{', '}')
+            inner = t[um.end():e - 1]
+            sib = set()
+            # direct children of the union: names before ';' at depth 0, or after a nested '}'
+            d = 0
+            cur = ''
+            for ch in inner:
+                if ch == '{':
+                    d += 1
+                elif ch == '}':
+                    d -= 1
+                    cur = ''
+                elif ch == ';' and d == 0:
+                    for nm in re.findall(r'(\w+)\s*(?:\[[^\]]*\])?\s*(?::\s*\d+)?\s*(?:,|$)', cur.strip() + ','):
+                        sib.add(nm)
+                    mm = re.findall(r'(\w+)\s*(?:\[[^\]]*\])?\s*$', cur.strip())
+                    if mm:
+                        sib.add(mm[-1])
+                    cur = ''
+                elif d == 0:
+                    cur += ch
+            sib -= {'uint8_t', 'uint16_t', 'uint32_t', 'uint64_t', 'struct', 'union'}
+            if len(sib) > 1:
+                union_groups.append(sib)
+
+    def member_names(body):
+        return set(re.findall(r'[.>](\w+)', body))
+
+    def union_alias(b1, b2):
+        m1, m2 = member_names(b1), member_names(b2)
+        for grp in union_groups:
+            a1, a2 = m1 & grp, m2 & grp
+            if a1 and a2 and a1 != a2:
+                return True
+        return False
+    acc_body = {}
+    for g_, (rt_, b_, w_) in ok_get.items():
+        acc_body[g_] = acc_body.get(g_, '') + b_
+    for s_, (rt_, pn_, b_, w_) in ok_set.items():
+        acc_body[s_] = acc_body.get(s_, '') + b_
+    auto_waived = []
+
     def waived(f, g):
+        if f != g and union_alias(acc_body.get(f, ''), acc_body.get(g, '')):
+            if (f, g) not in auto_waived and (g, f) not in auto_waived:
+                auto_waived.append((f, g))
+            return True
+        return _waived(f, g)
+
+    def _waived(f, g):
         for a, b_, why in waivers:
             if (a == f and b_ == g) or (a == g and b_ == f) or (a == f and b_ == '*') or (a == g and b_ == '*'):
                 return True
@@ -411,7 +477,8 @@ def gen_class(classes, setters, k, waivers):
         if s in ok_get and not waived(s, s):
             grt = ok_get[s][0]
             if grt[1] == rt[1] or (grt[1] in ('int', 'small', 'enum') and rt[1] in ('int', 'small', 'enum')):
-                h.append('    __CPROVER_assert(%s, "inverse: %s::%s get(set(v)) == v");' % (eq(rt, '%s_get_%s(b)' % (k, s), 'v'), k, s))
+                h.append('    __CPROVER_assert(%s, "inverse: %s::%s get(set(v)) == v for every value of the parameter type");' % (eq(rt, '%s_get_%s(b)' % (k, s), 'v'), k, s))
+                h.append('    { %s v0 = %s_get_%s(a); *c = *b; %s_set_%s(c, v0); __CPROVER_assert(%s, "inverse: %s::%s get(set(v0)) == v0 for every value v0 the field can hold"); }' % (ctype_of(grt), k, s, k, s, eq(grt, '%s_get_%s(c)' % (k, s), 'v0'), k, s))
                 npairs += 1
         for g in sorted(ok_get):
             if g == s or waived(s, g):
@@ -436,7 +503,8 @@ def gen_class(classes, setters, k, waivers):
     meta = {'class': k, 'functions': funcs, 'setters': len(ok_set), 'getters': len(ok_get), 'inverse_pairs': npairs,
             'non_interference_checks': ninterf, 'commutation_checks': ncomm,
             'skipped_accessors': [{'accessor': '%s::%s' % (k, s), 'reason': r} for s, r in skipped],
-            'waived_pairs': [{'a': a, 'b': b_, 'reason': why} for a, b_, why in waivers], 'rules': dict(log.fired)}
+            'waived_pairs': [{'a': a, 'b': b_, 'reason': why} for a, b_, why in waivers],
+            'union_alias_pairs': [list(x) for x in auto_waived], 'rules': dict(log.fired)}
     out.insert(7, '#! funcs-json: yes')
     out.insert(8, '#! anchors: %d setters and %d getters of class %s (%s)' % (len(ok_set), len(ok_get), k, ci.header))
     return '\n'.join(out) + '\n', meta
